@@ -76,7 +76,11 @@ static void run_ops(int t, int phase, const ThreadProg& pr, const SharedSol& sol
       case 2: { SU_vector r = a.UTransform(b, gsl_complex_rect(0, 0.1 + fabs(op.x))); for (int k = 0; k < d * d; k++) out.push_back(r[k]); break; }
       case 3: { auto es = a.GetEigenSystem(true); for (int k = 0; k < d; k++) out.push_back(gsl_vector_get(es.first.get(), k)); break; }
       case 4: { SU_vector h(d); for (int k = 1; k < d; k++) h[d * k + k] = 0.2 * k + op.x; std::vector<double> buf(h.GetEvolveBufferSize()); h.PrepareEvolve(buf.data(), 1.0 + op.x); SU_vector r(a.Evolve(buf.data())); b = r; for (int k = 0; k < d * d; k++) out.push_back(r[k]); break; }
-      case 5: { std::vector<std::unique_ptr<SU_vector>> tmp; for (int k = 0; k < 2 + op.p1 % 6; k++) tmp.emplace_back(new SU_vector(2 + (op.p2 + k) % 5)); out.push_back((double)tmp.size()); break; }
+      case 5: {  // allocation churn in every dimension, including the zero-size block of a vector assigned from an empty one
+        std::vector<std::unique_ptr<SU_vector>> tmp; for (int k = 0; k < 2 + op.p1 % 6; k++) tmp.emplace_back(new SU_vector(2 + (op.p2 + k) % 5));
+        if (op.p1 & 1) { SU_vector e; *tmp[0] = e; out.push_back((double)tmp[0]->Dim()); }
+        out.push_back((double)tmp.size()); break;
+      }
       case 6: {  // const queries on the shared solver
         SU_vector o(sol.d); for (int k = 0; k < sol.d * sol.d; k++) o[k] = val(k + 1);
         unsigned ir = (unsigned)op.p1 % sol.Get_nrhos();
